@@ -69,6 +69,24 @@ CLAIMS["C15"] = {
     "design": "DESIGN.md §5 C15",
 }
 
+CLAIMS["C11"] = {
+    "text": "dfir_pipes is compiled in place by Kani (overlay copy of the working tree, harness child modules appended to each combinator's "
+            "file so private state is reachable). Each Pull combinator gets a one-call (step) contract written as a refinement of the iterator "
+            "adapter: from ANY state satisfying the representation invariant, against havoc upstreams whose k-th item is base+k and which answer "
+            "Pending/Ended/item arbitrarily, one pull must emit exactly the item the adapter would emit next, lose nothing on Pending (every item "
+            "obtained is still held), poll each upstream at most once (never the side whose item is buffered, never an ended non-fused upstream), "
+            "end only when the adapter would end; size_hint must bracket the adapter's remaining count whenever upstream hints are correct. "
+            "Loop-free combinators (zip, zip_longest, chain, map, inspect, enumerate, take, take_while, fuse, cross_singleton, once/empty/repeat, "
+            "iter, either, next, stream/stream_ready/stream_compat) are complete for Item=u8; combinators with an internal loop (filter, "
+            "filter_map, skip, skip_while, flat_map, flatten, filter_map_async, flat_map_stream, flatten_stream, for_each, collect) are bounded "
+            "(<= 3 upstream items per call). A bounded trace harness from the initial state covers Zip.",
+    "note": "Trusted: Kani+CBMC; parametricity in Item/Meta (u8/()); havoc upstreams over-approximate real ones; the induction from step contracts "
+            "to whole traces is argued in DESIGN.md §5 C11, not machine-checked; termination is not proved (unwinding assertions only); "
+            "accumulator.rs, send_push/send_sink (see C12), from_fn/poll_fn/pending (one-line delegations) have no harness.",
+    "technique": "contract-based verification: Kani one-call contracts on the real combinators with symbolic own state and havoc callees",
+    "design": "DESIGN.md §5 C11",
+}
+
 NOT_APPLICABLE = {
     "C08": "GHT nodes own std HashMap / hashbrown HashTable at every level; variadic type recursion is outside Verus' subset and CBMC does not get through hashbrown probing (spiked): no contract on these functions can be discharged here.",
     "C18": "Quantifies over programs the compiler accepts; partition_graph works on DfirGraph (slotmaps of syn AST nodes): no contract over that state is within Verus' subset and Kani cannot build a symbolic DfirGraph.",
